@@ -374,6 +374,9 @@ var c14Cmds = [][]string{{"GET", "k"}, {"SET", "k", "v"}, {"INCR", "n"}, {"APPEN
 	{"LPUSH", "l", "a"}, {"LPOP", "l"}, {"LRANGE", "l", "0", "-1"}, {"SADD", "s", "m"}, {"SMEMBERS", "s"}, {"SCARD", "s"}, {"ZADD", "z", "1", "m"}, {"ZRANGE", "z", "0", "-1"}, {"ZCARD", "z"},
 	{"DEL", "k"}, {"EXISTS", "k"}, {"KEYS", "*"}, {"SCAN", "0"}, {"TYPE", "k"}, {"EXPIRE", "k", "10"}, {"TTL", "k"}, {"PING"}, {"ECHO", "x"}, {"SELECT", "1"}, {"AUTH", "p"}, {"NOSUCH"},
 	{"CONFIG", "SET", "tls-cert-file", "@cert"}, {"CONFIG", "SET", "tls-key-file", "@key"}, {"CONFIG", "SET", "tls-ca-cert-file", "@ca"}, {"CONFIG", "GET", "tls-cert-file"}, {"CONFIG", "GET", "tls-ca-cert-file"},
+	// parameter names of real Redis servers (a framework may give any of them a meaning of its own)
+	{"CONFIG", "SET", "proto-max-bulk-len", "1048576"}, {"CONFIG", "SET", "maxclients", "10000"}, {"CONFIG", "SET", "timeout", "0"}, {"CONFIG", "SET", "tcp-keepalive", "300"}, {"CONFIG", "SET", "databases", "16"},
+	{"CONFIG", "SET", "maxmemory", "0"}, {"CONFIG", "SET", "client-query-buffer-limit", "1073741824"}, {"CONFIG", "SET", "loglevel", "notice"}, {"CONFIG", "SET", "slowlog-log-slower-than", "10000"}, {"CONFIG", "GET", "proto-max-bulk-len"},
 	{"AUTH", "pw"}, {"AUTH", "pw2"}, {"CONFIG", "SET", "requirepass", "pw"}, {"CONFIG", "SET", "requirepass", ""}, {"CONFIG", "GET", "requirepass"},
 	{"CONFIG", "SET", "verif-a", "1"}, {"CONFIG", "SET", "verif-b", "2"}, {"CONFIG", "GET", "verif-a"}, {"CONFIG", "GET", "verif-a", "verif-b"}, {"CONFIG", "SET", "verif-a", "x", "verif-b", "y"}}
 
@@ -398,7 +401,7 @@ func genC14Plan(rt *rapid.T) c14Plan {
 					script = append(script, c14Step{Cmd: auths[rapid.IntRange(0, len(auths)-1).Draw(rt, "auth")]})
 					continue
 				case "tls-config":
-					script = append(script, c14Step{Cmd: c14Cmds[rapid.IntRange(len(c14Cmds)-15, len(c14Cmds)-11).Draw(rt, "tlscfg")]})
+					script = append(script, c14Step{Cmd: c14Cmds[rapid.IntRange(len(c14Cmds)-25, len(c14Cmds)-21).Draw(rt, "tlscfg")]})
 					continue
 				case "config":
 					k = 4
@@ -418,7 +421,7 @@ func genC14Plan(rt *rapid.T) c14Plan {
 			case 3:
 				script = append(script, c14Step{Raw: rapid.SampledFrom(raws).Draw(rt, "raw")})
 			case 4, 5:
-				script = append(script, c14Step{Cmd: c14Cmds[rapid.IntRange(len(c14Cmds)-15, len(c14Cmds)-1).Draw(rt, "cfg")]})
+				script = append(script, c14Step{Cmd: c14Cmds[rapid.IntRange(len(c14Cmds)-25, len(c14Cmds)-1).Draw(rt, "cfg")]})
 			default:
 				script = append(script, c14Step{Cmd: c14Cmds[rapid.IntRange(0, len(c14Cmds)-1).Draw(rt, "cmd")]})
 			}
